@@ -87,7 +87,8 @@ type Interp struct {
 	depth     int
 	allocated *Term // bytes allocated on this path (64-bit)
 
-	frame *Frame
+	frame   *Frame
+	initing *ssa.Package
 
 	known    []knownRegion
 	observed []string
@@ -222,7 +223,15 @@ func (in *Interp) concretize(t *Term, max int, what string) int64 {
 	var alts []int64
 	block := in.ts.True
 	for {
-		r := in.feasible(block)
+		if in.concrete != nil {
+			panic(pathEnd{"unsupported", "symbolic value in concrete mode: " + t.String()})
+		}
+		var extra *Term
+		if !block.IsTrue() {
+			extra = block
+		}
+		in.r.FeasQueries++
+		r := in.sol.Check(in.pc, extra) // always a real query: the model is read next
 		if r == Unsat {
 			break
 		}
@@ -322,6 +331,10 @@ func (in *Interp) callFn(fn *ssa.Function, args []Value, bindings []Value) Value
 	}
 	if h := in.sess.intrinsic(fn); h != nil {
 		return h(in, fn, args)
+	}
+	if fn.Synthetic == "package initializer" && in.initing != fn.Pkg {
+		// other packages are initialised lazily on first touch of their globals
+		return nil
 	}
 	if fn.Blocks == nil {
 		panic(in.unsupported("no body for " + fn.String()))
@@ -514,7 +527,9 @@ func (in *Interp) ensureInit(p *ssa.Package) {
 	}
 	saved := in.frame
 	savedDepth := in.depth
+	savedInit := in.initing
 	in.frame = nil
+	in.initing = p
 	func() {
 		defer func() {
 			if r := recover(); r != nil {
@@ -531,6 +546,7 @@ func (in *Interp) ensureInit(p *ssa.Package) {
 	}()
 	in.frame = saved
 	in.depth = savedDepth
+	in.initing = savedInit
 }
 
 // ---------------------------------------------------------------------------
